@@ -12,6 +12,7 @@ Line protocol of the C11 model:
       true/false/neg/conj/disj/exists/IF get their standard meaning; the remaining constants are
       enumerated (or sampled NSAMPLES times when there are too many valuations).
   (apart Ty Ty) -> T|F
+  (accepted ((NAME Ty Term)*)) -> T|F   the items, in order of declaration, are each `defOK` and new
 The search is an oracle that *uses* `sem`; it is not part of any theorem.
 -/
 open Holpy Holpy.Wire
@@ -108,6 +109,14 @@ def handle (line : String) : String :=
     | some T, some p =>
       toString (Sexp.list [Sexp.ofBool (defOK name T p), .atom (defReason name T p)])
     | _, _ => "bad-op"
+  | some (.list [.atom "accepted", .list items]) =>
+    -- ((NAME Ty Term)*) in order of declaration -> T|F : `accepted` of Props2.lean
+    let parsed := items.mapM fun
+      | .list [.atom n, ty, t] => do some (⟨n, ← tyOf ty, ← termOf t, n ++ "_def"⟩ : DefItem)
+      | _ => none
+    match parsed with
+    | some ds => toString (Sexp.ofBool (accepted ds))
+    | none => "bad-op"
   | some (.list [.atom "apart", a, b]) =>
     match tyOf a, tyOf b with
     | some x, some y => toString (Sexp.ofBool (apart x y))
